@@ -595,6 +595,18 @@ impl<'r, 'c, 's, W: Write> DatumSerializer<'r, 'c, 's, W> {
 						let start = bytes.len().checked_sub(fixed.size).ok_or_else(|| {
 							SerError::custom("Decimals of size larger than 16 are not supported")
 						})?;
+						// The bytes we truncate must be pure sign extension of what we keep
+						let sign_extension: u8 = if n < 0 { 0xFF } else { 0x00 };
+						let fits = bytes[..start].iter().all(|&b| b == sign_extension)
+							&& match bytes.get(start) {
+								Some(&first_kept) => (first_kept & 0x80 != 0) == (n < 0),
+								None => n == 0,
+							};
+						if !fits {
+							return Err(SerError::new(
+								"Integer to be encoded as decimal does not fit in `fixed` field size",
+							));
+						}
 						&bytes[start..]
 					}
 				};
